@@ -15,13 +15,13 @@ def rle_encode(text: str) -> str:
 
 def rle_decode(text: str) -> str:
     """Decodes markers and handles escaped literal delimiters properly."""
-    # Step 1: Find and expand the RLE tokens (~cN~)
-    # Strictly matches one non-tilde character and its count inside ~ delimiters
-    rle_pattern = re.compile(r"~([^~])(\d+)~")
-    expanded = rle_pattern.sub(lambda m: m.group(1) * int(m.group(2)), text)
-
-    # Step 2: Collapse the doubled literal delimiters back to single ones (~~ -> ~)
-    return expanded.replace("~~", "~")
+    # A single left-to-right pass: an escaped delimiter (~~) is a unit, so the
+    # tildes of a literal "~a4~" (encoded as "~~a4~~") are never read as a run.
+    pattern = re.compile(r"~~|~([^~])(\d+)~")
+    return pattern.sub(
+        lambda m: "~" if m.group(0) == "~~" else m.group(1) * int(m.group(2)),
+        text,
+    )
 
 
 def compact_value(data: Any) -> Any:
